@@ -622,7 +622,12 @@ def predicates(c, obs):
                 # authorisation facts of an executed tx (C04): chain id, nonce = current + 1
                 sid = t["from"]
                 if 200 <= sid < 300:
-                    sid = prev["names"].get(str(sid), [0, 0])[1]
+                    # the executor must resolve the name as committed before the block, the view of the signature check
+                    sid = blk_start["names"].get(str(sid), [0, 0])[1]
+                moved = sorted(int(k) for k in d["acc"] if k in prev["acc"] and d["acc"][k]["n"] != prev["acc"][k]["n"])
+                if moved and moved != [sid] and str(sid) in d["acc"]:
+                    fails.append(("C04", "name-resolution-disagree", "a transaction was executed as account %s although the signature check resolves its sender to %d "
+                                  "(name re-pointed / created earlier in the same block)" % (moved, sid), {"tx": t}))
                 if not t["chainok"]:
                     fails.append(("C04", "wrong-chain-executed", "a transaction bound to another chain id was executed", {"tx": t}))
                 if str(sid) in prev["acc"] and t["nonce"] != prev["acc"][str(sid)]["n"] + 1:
@@ -907,6 +912,22 @@ def corpus_cases(pid):
         for w in (0, 1, 4):
             case("chain", [{"txs": json.loads(json.dumps(X))}, {"txs": json.loads(json.dumps(Y))}, {"txs": json.loads(json.dumps(Yok))}],
                  "verifier", workers=w, fund=[[str(u), str(5000 * AERGO)] for u in (10, 11, 12, 13)], ids=[1, 2, 3, 10, 11, 12, 13, 30])
+        # same-block sequences: a name is re-pointed / created / the contract owner set, and a later tx of the SAME
+        # block is sent "from" that name: the executor must still resolve the name as of the start of the block
+        # (the view the signature check uses); the tx written for the NEW destination's nonce must not execute
+        case("chain", [{"txs": [T("namecreate", 10, 1, name=200, amount=str(AERGO))]},
+                       {"txs": [T("nameupdate", 10, 2, name=200, dest=11, amount=str(AERGO)),
+                                T("transfer", 200, 1, to=12, amount=str(AERGO), signer=10),      # nonce of 11 (new destination)
+                                T("transfer", 200, 3, to=12, amount="5", signer=10)]},           # nonce of 10 (committed destination)
+                       {"txs": [T("transfer", 200, 1, to=12, amount="6", signer=10)]}], "samename")
+        case("chain", [{"txs": [T("namecreate", 10, 1, name=200, amount=str(AERGO)),
+                                T("transfer", 200, 2, to=12, amount="5", signer=10),             # name not committed yet
+                                T("transfer", 10, 2, to=12, amount="7")]},
+                       {"txs": [T("transfer", 200, 3, to=12, amount="5", signer=10)]}], "samename")
+        case("chain", [{"txs": [T("transfer", 10, 1, to=2, amount=str(AERGO)), T("setowner", 10, 2, dest=10),
+                                dict(T("transfer", 2, 1, to=12, amount="5", signer=10), force=True)]},   # aergo.name has no owner before this block
+                       {"txs": [T("setowner", 10, 2, dest=10)]},
+                       {"txs": [T("transfer", 2, 1, to=12, amount="5", signer=10)]}], "samename")
         # sender = a registered NAME: the signature must be the name OWNER's (validator path, real signature workers)
         case("chain", [{"txs": [T("namecreate", 11, 1, name=200, amount=str(AERGO))]},
                        {"txs": [T("transfer", 200, 2, to=10, amount="5", signer=11)]},      # control: owner-signed passes
@@ -1057,7 +1078,13 @@ def run_reward(ctx):
             voters.append({"id": 10 + j, "fund": str(stake + r.randint(0, 5) * AERGO),
                            "stake": str(stake) if r.random() < 0.85 else ""})
         vault = r.choice([0, 1, 1000, 16 * 10 ** 16, 16 * 10 ** 16 - 1, 16 * 10 ** 16 + 1, 5 * AERGO, r.randint(0, 10 ** 19)])
-        cases.append({"id": i + 1, "vault": str(vault), "voters": voters, "seed": "%016x" % r.getrandbits(64) + "00" * 24})
+        c = {"id": i + 1, "vault": str(vault), "voters": voters, "seed": "%016x" % r.getrandbits(64) + "00" * 24}
+        if i % 2 == 1:
+            # the block reward as a node composes it: chain.SendBlockReward with the DPoS hook installed, fees in
+            # BpReward, coinbase = the voting-reward winner / another voter / the vault / a fresh account / none
+            c["fees"] = str(r.choice([1, 5 * 10 ** 15, 42 * 10 ** 15, 0]))
+            c["coinbase"] = ["winner", "winner", "loser", "vault", "fresh", "none"][(i // 2) % 6]
+        cases.append(c)
     fin = os.path.join(ctx.workdir, "reward.in")
     fout = os.path.join(ctx.workdir, "reward.out")
     with open(fin, "w") as f:
@@ -1076,21 +1103,32 @@ def run_reward(ctx):
         ids = sorted(int(k) for k in o["before"])
         b = {int(k): int(x) for k, x in o["before"].items()}
         a = {int(k): int(x) for k, x in o["after"].items()}
-        if int(o["sumBefore"]) != int(o["sumAfter"]):
-            pred.append(("reward-supply", "sendVotingReward changed the sum of balances by %d" % (int(o["sumAfter"]) - int(o["sumBefore"])), {"case": c, "obs": o}))
+        fees = int(c.get("fees") or 0) if o.get("cb") else 0
+        if int(o["sumBefore"]) + fees != int(o["sumAfter"]):
+            pred.append(("reward-supply", "%s changed the sum of balances by %d (beyond the fees credited to the coinbase)" % (
+                "chain.SendBlockReward with the voting-reward hook" if c.get("fees") is not None else "sendVotingReward",
+                int(o["sumAfter"]) - int(o["sumBefore"]) - fees), {"case": c, "obs": o}))
         if not o["nonceOK"]:
             pred.append(("reward-nonce", "sendVotingReward changed a nonce", {"case": c}))
         w = o["winner"]
         if w > 0:
             winners += 1
             exp = min(int(o["reward"]), b[3])
-            if a[w] - b[w] != exp or b[3] - a[3] != exp:
-                pred.append(("reward-amount", "winner gained %d, vault lost %d, expected %d" % (a[w] - b[w], b[3] - a[3], exp), {"case": c, "obs": o}))
-        elif w == 0 and a != b:
+            gain_w = a[w] - b[w] - (fees if o.get("cb") == w else 0)
+            loss_v = b[3] - a[3] + (fees if o.get("cb") == 3 else 0)
+            if w == 3:
+                gain_w, loss_v = exp, exp if a[3] - b[3] == (fees if o.get("cb") == 3 else 0) else -1
+            if gain_w != exp or loss_v != exp:
+                pred.append(("reward-amount", "winner gained %d, vault lost %d, expected %d" % (gain_w, loss_v, exp), {"case": c, "obs": o}))
+        elif w == 0 and not o.get("cb") and a != b:
             pred.append(("reward-nowinner", "balances changed although no winner was appointed", {"case": c, "obs": o}))
         accs = "; ".join("(%s, {| bal := %s; nonce := 0%%N; code := false |})" % (Ns(i), Zs(b[i])) for i in ids)
-        txt.append("Definition R%d := Eval vm_compute in (let s' := send_voting_reward %s %s (mk_state [%s] [] 0 []) in map (fun id => bal (acct_of s' id)) [%s]).\nPrint R%d.\n" % (
-            c["id"], Zs(int(o["reward"])), "(Some %s)" % Ns(w) if w > 0 else "None", accs, "; ".join(Ns(i) for i in ids), c["id"]))
+        inner = "send_voting_reward %s %s (with_block (mk_state [%s] [] 0 []) %s [])" % (
+            Zs(int(o["reward"])), "(Some %s)" % Ns(w) if w > 0 else "None", accs, Zs(int(c.get("fees") or 0)))
+        if c.get("fees") is not None:
+            inner = "send_reward_coinbase (%s) %s" % (inner, "(Some %s)" % Ns(o["cb"]) if o.get("cb") else "None")
+        txt.append("Definition R%d := Eval vm_compute in (let s' := %s in map (fun id => bal (acct_of s' id)) [%s]).\nPrint R%d.\n" % (
+            c["id"], inner, "; ".join(Ns(i) for i in ids), c["id"]))
     rc, out = ctx.coq_eval("reward", "\n".join(txt))
     if rc != 0:
         corr.append({"what": "reward model evaluation failed", "detail": out[-1500:]})
